@@ -93,8 +93,12 @@ fn fail(msg: String) -> ! { println!("WITNESS {}", msg); std::process::exit(1) }
 // a packet 1 of a peer of the given role-scheme with the digest at exactly `target` (one of the 728 positions)
 fn craft_p1(rng: &mut Lcg, client_scheme: bool, target: usize, key: &[u8]) -> Vec<u8> { craft_p1_sum(rng, client_scheme, target, key, 0) }
 // same, with the four selector bytes summing to (target - base) + 728 * wraps (wraps = 1 exercises the modulo: sums 728..=1020)
-fn craft_p1_sum(rng: &mut Lcg, client_scheme: bool, target: usize, key: &[u8], wraps: usize) -> Vec<u8> {
+fn craft_p1_sum(rng: &mut Lcg, client_scheme: bool, target: usize, key: &[u8], wraps: usize) -> Vec<u8> { craft_p1_full(rng, client_scheme, target, key, wraps, false) }
+// zero_version: bytes 4..8 (the "version" / time2 field) are zero although the packet carries a digest: whether a packet 1 is
+// digest-bearing is decided by the digest, not by that field
+fn craft_p1_full(rng: &mut Lcg, client_scheme: bool, target: usize, key: &[u8], wraps: usize, zero_version: bool) -> Vec<u8> {
     let mut p = rng.bytes(1536);
+    if zero_version { for b in p[4..8].iter_mut() { *b = 0; } }
     let (sel, base) = if client_scheme { (8, 12) } else { (772, 776) };
     let mut rest = target - base + 728 * wraps; // sum of the four selector bytes
     for i in 0..4 { let b = rest.min(255); p[sel + i] = b as u8; rest -= b; }
@@ -129,7 +133,7 @@ fn c11(seed: u64) {
                 // kk < 728: selector sum == offset index; kk >= 728: selector sums 728..=1020, which wrap to indexes 0..=292
                 let (k, wraps) = if kk < 728 { (kk, 0) } else { (kk - 728, 1) };
                 let target = k + if client_scheme { 12 } else { 776 };
-                let p1 = craft_p1_sum(&mut rng, client_scheme, target, peer_key, wraps);
+                let p1 = craft_p1_full(&mut rng, client_scheme, target, peer_key, wraps, kk % 5 == 0);
                 let mut input = vec![3u8];
                 input.extend_from_slice(&p1);
                 let mut h = Handshake::new(role(server));
